@@ -256,7 +256,10 @@ pub open spec fn post_s(s: Statement, a0: Analyzer, a1: Analyzer) -> bool {
 }
 pub open spec fn pre_d(d: Declaration, a: Analyzer) -> bool {
 	&&& pre_local(a, ids_d(d), 1)
-	&&& (d is Constant ==> a.variable_stack@.len() == 1 && has_container(a.containers@, d->Constant_name.resolution_id))
+	&&& (d is Constant ==> a.variable_stack@.len() == 1 && has_container(a.containers@, d->Constant_name.resolution_id)
+			&& (d->Constant_value_type is Ok ==> named_by_value(d->Constant_value_type->Ok_0)))
+	&&& (d is Structure ==> has_container(a.containers@, d->Structure_name.resolution_id)
+			&& forall|k: int| 0 <= k < d->Structure_members@.len() && (#[trigger] d->Structure_members@[k]).value_type is Ok ==> named_by_value(d->Structure_members@[k].value_type->Ok_0))
 }
 // a local declaration (stack of at least two layers: the innermost is not the constant layer) keeps the invariant
 pub proof fn lemma_inv_local_declaration(a0: Analyzer, a1: Analyzer, names: Seq<Seq<char>>)
@@ -328,5 +331,201 @@ pub proof fn lemma_inv_leave_constant(a0: Analyzer, a1: Analyzer)
 	assert forall|j: int| 0 <= j < layer0(stkv(a1)).len() implies has_container(a1.containers@, (#[trigger] layer0(stkv(a1))[j]).resolution_id) by {
 		assert(layer0(stkv(a1))[j] == layer0(stkv(a0))[j]);
 		lemma_has_container_kept(a0.containers@, a1.containers@, layer0(stkv(a0))[j].resolution_id);
+	}
+}
+
+// ---- found_container: which dependencies a TYPE records (C11) --------------------------------------------------------------------------
+// The identifiers a type mentions BY VALUE, in the order in which found_container hands them to found_container_1 (innermost
+// element type first): the structure / word itself; the element type of an array of any flavour - sized, named length, endless,
+// array-like AND, as the code stands, the array view `[]T` (Slice) and the pointer to an array view `&[]T` (SlicePointer) -;
+// the constant that names an array length.  Nothing behind a pointer `&T` or a structure view `(T)`; nothing for primitives.
+pub open spec fn by_value(t: ValueType) -> Seq<Identifier>
+	decreases t
+{
+	match t {
+		ValueType::Array { element_type, .. } => by_value(*element_type),
+		ValueType::ArrayWithNamedLength { element_type, named_length } => by_value(*element_type).push(named_length),
+		ValueType::Slice { element_type } => by_value(*element_type),
+		ValueType::SlicePointer { element_type } => by_value(*element_type),
+		ValueType::EndlessArray { element_type } => by_value(*element_type),
+		ValueType::Arraylike { element_type } => by_value(*element_type),
+		ValueType::Struct { identifier } => seq![identifier],
+		ValueType::Word { identifier, .. } => seq![identifier],
+		ValueType::UnresolvedStructOrWord { identifier: Some(identifier) } => seq![identifier],
+		_ => Seq::empty(),
+	}
+}
+// a type the resolver has not left a hole in, by value (`UnresolvedStructOrWord { identifier: None }` is unreachable!() in found_container)
+pub open spec fn named_by_value(t: ValueType) -> bool
+	decreases t
+{
+	match t {
+		ValueType::Array { element_type, .. } => named_by_value(*element_type),
+		ValueType::ArrayWithNamedLength { element_type, .. } => named_by_value(*element_type),
+		ValueType::Slice { element_type } => named_by_value(*element_type),
+		ValueType::SlicePointer { element_type } => named_by_value(*element_type),
+		ValueType::EndlessArray { element_type } => named_by_value(*element_type),
+		ValueType::Arraylike { element_type } => named_by_value(*element_type),
+		ValueType::UnresolvedStructOrWord { identifier: None } => false,
+		_ => true,
+	}
+}
+pub open spec fn all_predeclared(cs: Seq<Container>, ids: Seq<Identifier>) -> bool {
+	forall|k: int| 0 <= k < ids.len() ==> has_container(cs, (#[trigger] ids[k]).resolution_id)
+}
+pub open spec fn same_ids(a0: Analyzer, a1: Analyzer) -> bool {
+	forall|i: int| 0 <= i < a0.containers@.len() ==> ids_of(#[trigger] a1.containers@[i]) == ids_of(a0.containers@[i])
+}
+// the dependencies container -> ids[0], ids[1], .. are recorded one after the other, each exactly as found_container_1 records one
+// (edge_recorded, spec/u_scope_spec.rs), up to the first that is rejected (cycle: E413 / E415 / E416, or silent poison); ok: none was
+pub open spec fn recorded_all(a0: Analyzer, container: Identifier, member: Option<Identifier>, ids: Seq<Identifier>, ok: bool, a1: Analyzer) -> bool
+	decreases ids.len()
+{
+	if ids.len() == 0 { ok && same_ids(a0, a1) } else {
+		(!ok && recorded_all(a0, container, member, ids.drop_last(), false, a1))
+		|| exists|am: Analyzer, rl: Poisonable<Identifier>| recorded_all(a0, container, member, ids.drop_last(), true, am) && same_names(a0, am)
+			&& #[trigger] edge_recorded(am, container, member, ids.last(), rl, a1) && (rl is Ok) == ok
+	}
+}
+pub proof fn lemma_recorded_one(a0: Analyzer, container: Identifier, member: Option<Identifier>, id: Identifier, rl: Poisonable<Identifier>, a1: Analyzer)
+	requires edge_recorded(a0, container, member, id, rl, a1),
+	ensures recorded_all(a0, container, member, seq![id], rl is Ok, a1),
+{
+	let ids = seq![id];
+	assert(ids.drop_last() =~= Seq::<Identifier>::empty());
+	assert(recorded_all(a0, container, member, ids.drop_last(), true, a0));
+	assert(only_ids_change(a0.containers@, a0.containers@));
+	assert(same_names(a0, a0));
+	assert(ids.last() == id);
+}
+pub proof fn lemma_recorded_next(a0: Analyzer, container: Identifier, member: Option<Identifier>, ids: Seq<Identifier>, id: Identifier, am: Analyzer, rl: Poisonable<Identifier>, a1: Analyzer)
+	requires recorded_all(a0, container, member, ids, true, am), same_names(a0, am), edge_recorded(am, container, member, id, rl, a1),
+	ensures recorded_all(a0, container, member, ids.push(id), rl is Ok, a1),
+{
+	assert(ids.push(id).drop_last() =~= ids);
+	assert(ids.push(id).last() == id);
+}
+pub proof fn lemma_recorded_failed_earlier(a0: Analyzer, container: Identifier, member: Option<Identifier>, ids: Seq<Identifier>, id: Identifier, a1: Analyzer)
+	requires recorded_all(a0, container, member, ids, false, a1),
+	ensures recorded_all(a0, container, member, ids.push(id), false, a1),
+{
+	assert(ids.push(id).drop_last() =~= ids);
+}
+pub proof fn lemma_same_names_trans(a0: Analyzer, a1: Analyzer, a2: Analyzer)
+	requires same_names(a0, a1), same_names(a1, a2),
+	ensures same_names(a0, a2),
+{
+	lemma_only_ids_change_trans(a0.containers@, a1.containers@, a2.containers@);
+}
+pub proof fn lemma_all_predeclared_kept(c0: Seq<Container>, c1: Seq<Container>, ids: Seq<Identifier>)
+	requires only_ids_change(c0, c1), all_predeclared(c0, ids),
+	ensures all_predeclared(c1, ids),
+{
+	assert forall|k: int| 0 <= k < ids.len() implies has_container(c1, (#[trigger] ids[k]).resolution_id) by { lemma_has_container_kept(c0, c1, ids[k].resolution_id); }
+}
+pub open spec fn type_of(c: Poisonable<ValueType>) -> ValueType { c->Ok_0 }
+
+// what resolving a type (analyze_type: use_struct / use_constant) establishes for the wellfoundedness check that follows
+pub open spec fn type_resolved(t0: Poisonable<ValueType>, r: Poisonable<ValueType>, a1: Analyzer) -> bool {
+	r is Ok ==> t0 is Ok && all_predeclared(a1.containers@, by_value(r->Ok_0)) && (named_by_value(t0->Ok_0) ==> named_by_value(r->Ok_0))
+}
+pub proof fn lemma_resolved_has_container(c0: Seq<Container>, c1: Seq<Container>, structure: bool, name: Seq<char>)
+	requires lookup(ns(c0, structure), name) is Some, only_ids_change(c0, c1),
+	ensures has_container(c1, lookup(ns(c0, structure), name)->0.resolution_id),
+{
+	lemma_lookup_is_first(ns(c0, structure), name);
+	let x = lookup(ns(c0, structure), name)->0;
+	let j = choose|j: int| first_named(ns(c0, structure), name, j) && ns(c0, structure)[j] == x;
+	lemma_ns_member(c0, structure, j);
+	lemma_has_container_kept(c0, c1, x.resolution_id);
+}
+pub proof fn lemma_constant_has_container(a: Analyzer, name: Seq<char>)
+	requires constants_are_containers(a), lookup(layer0(stkv(a)), name) is Some,
+	ensures has_container(a.containers@, lookup(layer0(stkv(a)), name)->0.resolution_id),
+{
+	lemma_lookup_is_first(layer0(stkv(a)), name);
+	let x = lookup(layer0(stkv(a)), name)->0;
+	let j = choose|j: int| first_named(layer0(stkv(a)), name, j) && layer0(stkv(a))[j] == x;
+	assert(has_container(a.containers@, layer0(stkv(a))[j].resolution_id));
+}
+
+// ---- the top level: analyze(program) ----------------------------------------------------------------------------------------------------
+// a declaration whose types can go through the wellfoundedness check (the parser leaves no nameless structure type by value)
+pub open spec fn types_named(d: Declaration) -> bool {
+	&&& (d is Constant && d->Constant_value_type is Ok ==> named_by_value(d->Constant_value_type->Ok_0))
+	&&& (d is Structure ==> forall|k: int| 0 <= k < d->Structure_members@.len() && (#[trigger] d->Structure_members@[k]).value_type is Ok
+			==> named_by_value(d->Structure_members@[k].value_type->Ok_0))
+}
+// a predeclared declaration: its own container exists
+pub open spec fn decl_ready(d: Declaration, cs: Seq<Container>) -> bool {
+	&&& types_named(d)
+	&&& (d is Constant ==> has_container(cs, d->Constant_name.resolution_id))
+	&&& (d is Structure ==> has_container(cs, d->Structure_name.resolution_id))
+}
+pub open spec fn ids_p(p: Seq<Declaration>, k: int) -> nat
+	decreases p.len() - k
+{
+	if 0 <= k < p.len() { ids_d(p[k]) + ids_p(p, k + 1) } else { 0 }
+}
+// one id for the start value, one per predeclared name, and what the walk of every declaration consumes
+pub open spec fn program_fits(p: Seq<Declaration>) -> bool { 1 + p.len() + ids_p(p, 0) <= u32::MAX }
+pub proof fn lemma_ids_p_le(p: Seq<Declaration>, q: Seq<Declaration>, k: int)
+	requires p.len() == q.len(), 0 <= k, forall|j: int| 0 <= j < p.len() ==> ids_d(#[trigger] q[j]) <= ids_d(p[j]),
+	ensures ids_p(q, k) <= ids_p(p, k),
+	decreases p.len() - k
+{
+	if k < p.len() { lemma_ids_p_le(p, q, k + 1); }
+}
+pub proof fn lemma_has_container_appended(c0: Seq<Container>, c1: Seq<Container>, structure: bool, new: Identifier, rid: u32)
+	requires appended(c0, c1, structure, new),
+	ensures has_container(c0, rid) ==> has_container(c1, rid), has_container(c1, new.resolution_id),
+{
+	if has_container(c0, rid) {
+		let i = choose|i: int| 0 <= i < c0.len() && (#[trigger] c0[i]).identifier.resolution_id == rid;
+		assert(c1[i] == c0[i]);
+	}
+	assert(c1[c0.len() as int].identifier.resolution_id == new.resolution_id);
+}
+// predeclaration of d out of state a0 into a1 with result r: r is ready, earlier results stay ready, r costs the walk no more than d
+pub proof fn lemma_predeclared_ready(r: Declaration, d: Declaration, a0: Analyzer, a1: Analyzer, e: Declaration)
+	requires predeclared(r, d, a0), predeclare_effect(d, a0, a1), types_named(d),
+	ensures decl_ready(r, a1.containers@), ids_d(r) <= ids_d(d), decl_ready(e, a0.containers@) ==> decl_ready(e, a1.containers@),
+		a1.containers@.len() <= a0.containers@.len() + 1,
+{
+	let rid = a0.resolution_id;
+	match d {
+		Declaration::Constant { name, .. } => {
+			lemma_has_container_appended(a0.containers@, a1.containers@, false, declared_as(name, rid), declared_as(name, rid).resolution_id);
+			if e is Constant { lemma_has_container_appended(a0.containers@, a1.containers@, false, declared_as(name, rid), e->Constant_name.resolution_id); }
+			if e is Structure { lemma_has_container_appended(a0.containers@, a1.containers@, false, declared_as(name, rid), e->Structure_name.resolution_id); }
+		},
+		Declaration::Structure { name, .. } => {
+			lemma_has_container_appended(a0.containers@, a1.containers@, true, declared_as(name, rid), declared_as(name, rid).resolution_id);
+			if e is Constant { lemma_has_container_appended(a0.containers@, a1.containers@, true, declared_as(name, rid), e->Constant_name.resolution_id); }
+			if e is Structure { lemma_has_container_appended(a0.containers@, a1.containers@, true, declared_as(name, rid), e->Structure_name.resolution_id); }
+		},
+		_ => {},
+	}
+}
+pub proof fn lemma_decl_ready_kept(d: Declaration, c0: Seq<Container>, c1: Seq<Container>)
+	requires decl_ready(d, c0), only_ids_change(c0, c1),
+	ensures decl_ready(d, c1),
+{
+	if d is Constant { lemma_has_container_kept(c0, c1, d->Constant_name.resolution_id); }
+	if d is Structure { lemma_has_container_kept(c0, c1, d->Structure_name.resolution_id); }
+}
+// obtain_container_depth / postanalyze: the depth stored in the FIRST container with the declaration's resolution id
+pub open spec fn depth_found(cs: Seq<Container>, rid: u32, r: Option<Poisonable<u32>>) -> bool {
+	(exists|j: int| #![trigger cs[j]] first_id(cs, rid, j) && r == cs[j].depth) || (!has_container(cs, rid) && r is None)
+}
+pub open spec fn postanalysed(r: Declaration, d: Declaration, cs: Seq<Container>) -> bool {
+	match d {
+		Declaration::Constant { name, value, value_type, flags, depth, location_of_declaration, location_of_type } =>
+			exists|x: Option<Poisonable<u32>>| #[trigger] depth_found(cs, name.resolution_id, x)
+				&& r == (Declaration::Constant { name, value, value_type, flags, depth: x, location_of_declaration, location_of_type }),
+		Declaration::Structure { name, members, structural_type, flags, depth, location_of_declaration } =>
+			exists|x: Option<Poisonable<u32>>| #[trigger] depth_found(cs, name.resolution_id, x)
+				&& r == (Declaration::Structure { name, members, structural_type, flags, depth: x, location_of_declaration }),
+		_ => r == d,
 	}
 }
